@@ -137,6 +137,7 @@ def rule_decl_filter(db: ProgramDB) -> List[Instance]:
     var_cls = db.cls("Variable")
     # (a) lazy isinstance filter on the supplied domain with the runtime class parameter
     filters = []
+    subjects: Dict[int, Tuple[ast.AST, List[str]]] = {}
     for n in own_nodes(fn.node):
         if isinstance(n, ast.Assign):
             v = n.value
@@ -151,12 +152,14 @@ def rule_decl_filter(db: ProgramDB) -> List[Instance]:
                 body = v.args[0].body
                 if isinstance(body, ast.Call) and dotted(body.func) == "isinstance" and len(body.args) == 2:
                     pred_cls = unparse(body.args[1])
+                    subjects[id(n)] = (body.args[0], [a_.arg for a_ in v.args[0].args.args])
                 src = v.args[1]
             elif isinstance(v, (ast.GeneratorExp, ast.ListComp)) and len(v.generators) == 1 and v.generators[0].ifs:
                 lazy = isinstance(v, ast.GeneratorExp)
                 t = v.generators[0].ifs[0]
                 if isinstance(t, ast.Call) and dotted(t.func) == "isinstance" and len(t.args) == 2:
                     pred_cls = unparse(t.args[1])
+                    subjects[id(n)] = (t.args[0], [x_.id for x_ in ast.walk(v.generators[0].target) if isinstance(x_, ast.Name)])
                 src = v.generators[0].iter
             elif isinstance(v, ast.Call) and dotted(v.func) in ("list", "tuple") and v.args and isinstance(v.args[0], ast.Call) \
                     and dotted(v.args[0].func) == "filter":
@@ -164,6 +167,8 @@ def rule_decl_filter(db: ProgramDB) -> List[Instance]:
                 inner = v.args[0]
                 if isinstance(inner.args[0], ast.Lambda) and isinstance(inner.args[0].body, ast.Call):
                     pred_cls = unparse(inner.args[0].body.args[1]) if len(inner.args[0].body.args) == 2 else None
+                    if len(inner.args[0].body.args) == 2:
+                        subjects[id(n)] = (inner.args[0].body.args[0], [a_.arg for a_ in inner.args[0].args.args])
                 src = inner.args[1]
             else:
                 continue
@@ -182,6 +187,16 @@ def rule_decl_filter(db: ProgramDB) -> List[Instance]:
                             line=n.lineno))
             continue
         ok = pred_cls == p0
+        if ok and id(n) in subjects:
+            subj, elems = subjects[id(n)]
+            if not (isinstance(subj, ast.Name) and subj.id in elems):
+                out.append(inst("DECL-FILTER", VIOLATION, fn, "extract_selected_variable_and_expression[the member itself is tested]",
+                                f"`{unparse(n)[:110]}` judges `{unparse(subj)}`, not the member `{', '.join(elems)}` of the supplied collection: the members are the "
+                                f"user's objects, and what an attribute of theirs happens to hold says nothing about their type (a class with a field of that "
+                                f"name loses its instances, or keeps foreign ones)", line=n.lineno))
+                continue
+            out.append(inst("DECL-FILTER", HOLDS, fn, "extract_selected_variable_and_expression[the member itself is tested]",
+                            f"the type test is applied to the member `{subj.id}` itself", line=n.lineno))
         out.append(inst("DECL-FILTER", HOLDS if ok else VIOLATION, fn, "extract_selected_variable_and_expression[isinstance filter]",
                         f"`{unparse(n)[:90]}` keeps exactly the instances of the class being constructed (`{p0}`)" if ok else
                         f"`{unparse(n)[:90]}` filters by `{pred_cls}`, not by the class being constructed (`{p0}`, the "
@@ -708,6 +723,14 @@ def rule_collection_table(db: ProgramDB) -> List[Instance]:
                     f"excluded: {sorted(excluded)}" if need <= excluded else
                     f"{sorted(need - excluded)} no longer excluded: a string value (a field constraint, a flattened element) is spread into its characters / a class into nothing",
                     line=rets[0].lineno))
+    containers = {"dict", "list", "tuple", "set", "frozenset", "deque", "range", "Mapping", "MutableMapping", "Sequence", "MutableSequence", "Set", "MutableSet",
+                  "Collection", "Iterable", "Iterator", "Generator", "GeneratorType", "OrderedDict", "defaultdict", "KeysView", "ValuesView", "ItemsView", "dict_keys",
+                  "dict_values", "HashedIterable"}
+    wrong = sorted(excluded & containers)
+    out.append(inst("COLLECTION-TABLE", VIOLATION if wrong else HOLDS, fn, "is_iterable[containers are collections]",
+                    f"{wrong} excluded from the collections: a value of that type is one value - flatten hands out the container itself (one row, also for an empty one) "
+                    f"instead of one row per element, and a domain given as such a container is a domain of one value" if wrong else
+                    "no container type is among the excluded scalar types", line=rets[0].lineno))
     return out
 
 
